@@ -46,6 +46,7 @@ impl Out {
         }
         s.push('\n');
         self.w.write_all(s.as_bytes()).unwrap();
+        self.w.flush().unwrap();
         self.count += 1;
     }
     pub fn finish(mut self) {
